@@ -197,12 +197,20 @@ def finish(ctx, replay_filter=None, write_evidence=True, quiet=False):
         _validate(ev)
         json.dump(ev, open(os.path.join(EVIDENCE_DIR, f'{ctx.prop}.json'), 'w'), indent=1, default=str)
     if not quiet:
+      try:
         print(f'[{ctx.prop}] tier={ctx.tier} obligations={len(ctx.obs)} hold={len(holds)} violated={len(viol)} '
               f'(known={len(known_hit)}) undecided={len(und)} floors={len(ctx.floors)} wall={wall:.2f}s')
         for k, v in sorted(_per_rule(ctx).items()):
             print(f'    {k}: {v}')
         for ln in lines:
             print(ln)
+      except BrokenPipeError:
+        # the reader closed the pipe (e.g. `| head`): the verdict is the exit code
+        try:
+            import sys
+            sys.stdout = open(os.devnull, 'w')
+        except Exception:
+            pass
     return code
 
 
